@@ -25,8 +25,9 @@ Deviations from Appendix E (all recorded because the differential run asked for 
 * labels that open an exchange carry a write `budget` (WFAIL at a chosen point of the exchange, incl. "from the
   start" and "in the middle of a replay"); WRITE carries `ctxNew` (the write's context has version ≥ 2026-07-28:
   no store append, no event id — C08 is about contexts before that version);
-* `Write`'s two critical sections (routing under `c.mu`, append+deliver under `s.mu`) are ONE label, and so are
-  `acquireStream`'s lookup and replay sections; the release that follows SCLOSE / END is the separate CUT label
+* `Write`'s two critical sections are the two labels WROUTE (routing under `c.mu`) and WDELIVER (append+deliver
+  under `s.mu`) with the write pending in `Conn.pendW` in between; the label WRITE is the two back to back
+  (`write_is_route_then_deliver`).  `acquireStream`'s lookup and replay sections are ONE label (GET); the release that follows SCLOSE / END is the separate CUT label
   (the driver issues it); a response that completes a stream ends the exchange in the WRITE label itself;
 * the temporary "exclusive replay" entry of `acquireStream` does not persist in a state (GET is atomic);
 * `select`s on `c.done` that race with a ready channel (`incoming` has room) are resolved as: POST without
@@ -120,6 +121,14 @@ structure Cfg where
   noSession    : Bool               -- `sessionID == ""`
 deriving DecidableEq, Repr
 
+/-- a `Write` between its two critical sections: routed (under `c.mu`), not yet appended / delivered (under the
+stream's `mu`).  `sid` names the stream *object* the routing section picked. -/
+structure PendW (α : Type) where
+  msg    : Msg α
+  ctx    : Option ReqId
+  ctxNew : Bool
+  sid    : SId
+
 structure Conn (α : Type) where
   cfg        : Cfg
   streams    : List (Stream α)                        -- `c.streams` (at most one entry per id)
@@ -131,6 +140,7 @@ structure Conn (α : Type) where
   hist       : SId → Option (List ReqId × Bool)       -- ghost: (calls, listen) of every registered stream
   born       : SId → Option ExId := fun _ => none     -- ghost: the POST exchange that registered the stream
   purged     : SId → Nat := fun _ => 0                -- event store: entries evicted from the front of each log (`dataList.first`)
+  pendW      : List (PendW α) := []                   -- writes between their routing and their delivery section
 
 /-- `Connect`: the standalone stream exists from the start and is opened in the store. -/
 def init {α} (cfg : Cfg) : Conn α :=
@@ -153,6 +163,8 @@ inductive Label (α : Type) where
   | sclose (req : ReqId) (retry : Bool)
   | «end»
   | evict (sid : SId) (n : Nat)      -- the event store drops the entries before index `n` of a stream's log (`MemoryEventStore.purge`)
+  | wroute (msg : Msg α) (ctx : Option ReqId) (ctxNew : Bool)   -- `Write`, first critical section (`c.mu`): routing
+  | wdeliver (i : Nat)               -- `Write`, second critical section (the stream's `mu`) of the `i`-th pending write
 deriving Repr
 
 /-- what `Write` returned -/
@@ -348,6 +360,36 @@ def writeR {α} (c : Conn α) (msg : Msg α) (ctx : Option ReqId) (ctxNew : Bool
     if c.isDone then (eraseResp c msg, .broken)                -- "session is closed"
     else writeTo (eraseResp c msg) s msg ctx ctxNew
 
+/-! ### WRITE in two steps: WROUTE (under `c.mu`) and WDELIVER (under the stream's `mu`)
+
+Between the two sections anything may happen: the stream may be detached, re-attached by a resume, closed, even
+completed and deleted by another write; the session may be closed.  The delivery section works on the stream
+object the routing section picked (`PendW.sid`); if that object is no longer registered its `done` channel is gone,
+so nothing is delivered, but the message is still appended to the store. -/
+
+/-- first critical section: routing decision, `delete(c.requestStreams, responseTo)`, `sessionClosed := c.isDone` -/
+def wrouteR {α} (c : Conn α) (msg : Msg α) (ctx : Option ReqId) (ctxNew : Bool) : Conn α × Res :=
+  if msg.isCall && (c.cfg.stateless || c.cfg.noSession) then (c, .rejected) else
+  match route c msg ctx with
+  | none => (eraseResp c msg, .rejected)
+  | some s =>
+    if c.isDone then (eraseResp c msg, .broken)
+    else ({ eraseResp c msg with pendW := c.pendW ++ [⟨msg, ctx, ctxNew, s.id⟩] }, .na)
+
+/-- the delivery section on a stream object that was completed and deleted meanwhile: store only -/
+def orphanWrite {α} (c : Conn α) (pw : PendW α) : Conn α × Res :=
+  ({ c with store := if wUse c pw.ctxNew then appendLog pw.sid (some ⟨pw.msg, pw.ctx⟩) c.store else c.store },
+   if wUse c pw.ctxNew then .ok else .rejected)
+
+/-- second critical section of the `i`-th pending write -/
+def wdeliverR {α} (c : Conn α) (i : Nat) : Conn α × Res :=
+  match c.pendW[i]? with
+  | none => (c, .na)
+  | some pw =>
+    match findStream pw.sid c.streams with
+    | some s => writeTo { c with pendW := c.pendW.eraseIdx i } s pw.msg pw.ctx pw.ctxNew
+    | none => orphanWrite { c with pendW := c.pendW.eraseIdx i } pw
+
 /-! ### GET (`serveGET` / `acquireStream`) -/
 
 def Hdr.sid : Hdr → SId
@@ -449,6 +491,8 @@ def stepR {α} (c : Conn α) : Label α → Conn α × Res
   | .sclose req retry => (sclose c req retry, .na)
   | .end => ({ c with isDone := true }, .na)
   | .evict sid n => (evict c sid n, .na)
+  | .wroute msg ctx ctxNew => wrouteR c msg ctx ctxNew
+  | .wdeliver i => wdeliverR c i
 
 def step {α} (c : Conn α) (l : Label α) : Conn α := (stepR c l).1
 
